@@ -439,6 +439,7 @@ func TestCheck(t *testing.T) {
 	bubble.SetT(t)
 	r := report.Start(t, "C13")
 	defer r.Finish()
+	bubble.WatchDeadlocks(3, func(frame, dump string) { r.DeadlockVerdict("c13", frame, dump) })
 
 	run := func(algo string, evs []int) {
 		if err := runHistory(r, algo, evs); err != nil {
